@@ -142,8 +142,9 @@ def check_guards(ctx, cfg):
         if sites:
             ctx.ob("C02.R", key + "#rejects", not bad, "%d rejecting exit(s), each required to be reached only under len != N; violating: %s" % (len(sites), bad or "none"), at=b["at"], cfg=cfg)
         if rej == "err":
-            pan = [c for c in a.calls if c.fn.startswith("core::panicking::")]
-            ctx.ob("C02.R", key + "#no_panic", not pan, "the fallible form has no panicking exit: %s" % (not pan), at=b["at"], cfg=cfg)
+            from ..rules import reachable_panics
+            pan = reachable_panics(a)
+            ctx.ob("C02.R", key + "#no_panic", not pan, "the fallible form has no panicking exit (no explicit panic or compiler-inserted check that can fail, no std call whose panic condition is not excluded): %s" % ((not pan) or pan), at=b["at"], cfg=cfg)
         ctx.sample({"rule": rule, "fn": key, "cfg": cfg, "success": [vstr(v) for v, _ in succ][:3], "inlined": [x["callee"] for x in a.body.get("inlined", [])]})
     ctx.floor(rule, "slice-to-array reference conversions (%s)" % cfg, n, 4)
     # generic sweep: any other slice-derived reborrow as GenericArray anywhere in the crate
